@@ -259,6 +259,25 @@ CLAIMED.update({
          ADD_TRUST, 'DESIGN.md section 5 C01, Appendix E'),
 })
 
+CLAIMED.update({
+ 'C02': ('Coq proof over Gallina models of wn.lmf.dump and wn.lmf.load and of the CPython serialisers dump relies on '
+         '(ElementTree escaping, quoteattr), written from wn/lmf.py with the per-version tables regenerated from the source; tied '
+         'to the code by differential correspondence (dumped file byte for byte; loaded resource exactly, incl. key order) and by '
+         'evaluating the theorems\' normal-form hypothesis, inside Coq, on the resources the real load returns for files the real '
+         'dump wrote; the round trip itself is also run on the real code (load, dump in every version, reload, redump)',
+         'Theorems (closed under the global context): every attribute value and every text survives serialisation and parsing '
+         'character for character (all code points; CR in text becomes LF, which whitespace normalisation absorbs); for every '
+         'element kind (Tag, Pronunciation, Requires/Extends, SyntacticBehaviour 1.0/1.1, Example, Definition, ILIDefinition, '
+         'relations, Count, Lemma, Form, Sense, Synset, LexicalEntry and their External variants, Lexicon/LexiconExtension) and for '
+         'whole documents: load (dump R) = R exactly, for every resource R in the loader\'s normal form, every supported version, '
+         'every indentation; dump is total on normal forms and writes header ++ root ++ lexicon texts. The model of what expat '
+         'reports for a serialised element (expat_view: names namespace-expanded, values decoded) is justified by the string-level '
+         'theorems and validated by correspondence; expat itself is not modelled. "dump(load(F)) reloads equal" for files not '
+         'written by dump is decided by the oracle; documents outside the normal form (empty optional attributes, explicit '
+         'defaults) are an interpretation point (DESIGN.md).',
+         LMF_TRUST, 'DESIGN.md section 5 C02, Appendix E'),
+})
+
 NOT_YET = 'not covered yet in this round: model, theorems and correspondence are planned (DESIGN.md sections 5 and 9) but no sound check is registered, so nothing is claimed'
 
 def main():
